@@ -200,6 +200,23 @@ FORMS = [
     ('expr-hq-fmt-sql', 'H', '<dtml-var "x" fmt="sql-quote" html_quote>',
      lambda v: not any(c in v for c in "'\x00\x1a\r")),
 ]
+# (name, class, source, expected parts: 'P' plain value, 'Q' quoted value)
+SAME_BODY = [
+    ('plain-entity', 'H', '<dtml-var x>|&dtml-x;', ['P', '|', 'Q']),
+    ('entity-plain', 'H', '&dtml-x; and <dtml-var x>', ['Q', ' and ', 'P']),
+    ('plain-hq-plain', 'H', '<dtml-var x>,<dtml-var x html_quote>,'
+     '<dtml-var name=x>', ['P', ',', 'Q', ',', 'P']),
+    ('hq-plain-entity', 'H', '[<dtml-var name="x" html_quote>][<dtml-var x>]'
+     '[&dtml-x;]', ['[', 'Q', '][', 'P', '][', 'Q', ']']),
+    ('epfs-plain-hq', 'S', '%(x)s|%(x html_quote)s|%(x)s',
+     ['P', '|', 'Q', '|', 'P']),
+    ('ssi-hq-plain', 'H', '<!--#var x html_quote-->/<!--#var x-->',
+     ['Q', '/', 'P']),
+    ('in-body', 'H', '<dtml-in "(1, 2)"><dtml-var x>:&dtml-x;;</dtml-in>',
+     ['P', ':', 'Q', ';', 'P', ':', 'Q', ';']),
+    ('if-body', 'H', '<dtml-if "1">&dtml-x;=<dtml-var x></dtml-if>',
+     ['Q', '=', 'P']),
+]
 PLAIN = [('plain', 'H', '<dtml-var x>'), ('plain-expr', 'H', '<dtml-var "x">'),
          ('plain-epfs', 'S', '%(x)s'), ('plain-ssi', 'H', '<!--#var x-->')]
 BYTES_FORMS = ['entity', 'var-hq', 'expr-hq', 'fmt', 'entity.hq', 'hq-size',
@@ -232,6 +249,23 @@ def check_value(acc, v, forms=None, case_tag='str', count=True, ctx=0):
         elif html.unescape(out) != v and '\r' not in v:
             acc.fail('unescape:%s' % name, [case_tag, v, name],
                      'unescape(%r) != %r' % (out[:80], v[:60]))
+    # the same value inserted several times in one body, plainly and
+    # quoted, with literal text only in between: every insertion is what it
+    # is alone
+    for name, kind, src, parts in SAME_BODY:
+        n += 1
+        want = ''.join(exp if p == 'Q' else v if p == 'P' else p
+                       for p in parts)
+        try:
+            out = tmpl(kind, src)(x=v)
+        except Exception as e:
+            acc.fail('exception:%s:%s' % (name, type(e).__name__),
+                     [case_tag, v, name], repr(e))
+            continue
+        if out != want:
+            acc.fail('same-body:%s' % name, [case_tag, v, name],
+                     '%s of %r gave %r, expected %r' % (src, v[:60], out[:90],
+                                                        want[:90]))
     for name, kind, src in PLAIN:
         n += 1
         try:
